@@ -1325,10 +1325,20 @@ package ucfg
 // reifyMergeValue: the scope clause is the summary reifyMap relies on (assumed: the function is a reflect-driven
 // dispatcher); what is proved here is that every callee precondition holds at its call site - in particular
 // that a configuration is never merged into itself (C11: Unpack is a read).
+//@ ghost func chasedI(v reflect.Value) reflect.Value
+//@ func chaseValueInterfaces :: v -> r
+//@ props C07 C04
+//@ pure
+//@ rvwrites nothing
+//@ ensures [naming !unproved] r == chasedI(v)
+
+// C04: a value that takes its setting through a custom Unpack method is validated before it is handed back: the
+// validators of its field accept it and so does its own Validate() method
 //@ func reifyMergeValue :: opts, oldValue, val -> r, err
-//@ props C11 C07
+//@ props C11 C07 C04
 //@ norte
 //@ uses chase
+//@ ensures [unpacker_validated @C04] err == nil && !((rvKind(chasedP(chasedI(oldValue))) == 22 || rvKind(chasedP(chasedI(oldValue))) == 20) && rvNil(chasedP(chasedI(oldValue)))) && !convTo(old(tConfig), chasedT(rvType(chasedP(chasedI(oldValue))))) && isUnp(chasedP(chasedI(oldValue))) ==> selfValid(chasedP(chasedI(oldValue))) && accepts(opts.validators, rvAny(chasedP(chasedI(oldValue))))
 //@ rvwrites rvRootOf(oldValue), pointeeStore()
 //@ requires opts.opts != nil
 //@ modifies *
@@ -1726,10 +1736,14 @@ package ucfg
 //@ loop 1 invariant 0 <= idx
 //@ loop 1 invariant forall j int :: 0 <= j && j < idx && !(start <= j && j < start + len(arr)) ==> recValid(rvIndex(to, j))
 
+// accepts(validators, v): every validator of the list accepts v (the list is taken as a value: its elements are not
+// changed while a field is unpacked)
+//@ ghost func accepts(validators []validatorTag, v interface{}) bool
 //@ func runValidators :: val, validators -> result
 //@ props C04
 //@ dynpure
 //@ pure
+//@ ensures [naming !unproved] (result == nil) == accepts(validators, val)
 //@ ensures [all_accept] result == nil ==> forall j int :: 0 <= j && j < len(validators) ==> dyn0(validators[j].cb, error, val, validators[j].param) == nil
 //@ ensures [first_reject] result != nil ==> exists j int :: 0 <= j && j < len(validators) && result == dyn0(validators[j].cb, error, val, validators[j].param) && forall i int :: 0 <= i && i < j ==> dyn0(validators[i].cb, error, val, validators[i].param) == nil
 //@ loop 1 invariant -1 <= rangeindex && rangeindex < len(validators)
@@ -1756,10 +1770,12 @@ package ucfg
 // only by its final orig.Set, i.e. only after every field converted and every validator accepted.
 //@ ghost func chasedP(v reflect.Value) reflect.Value
 
+//@ ghost func isUnp(v reflect.Value) bool
 //@ func valueIsUnpacker :: v -> r, ok
 //@ props C07
 //@ sweep
 //@ rvwrites nothing
+//@ ensures [naming !unproved] ok == isUnp(v)
 //@ ensures [storage !unproved] ok ==> rvRootOf(r) == rvRootOf(v)
 
 //@ func messageMeta :: message, meta -> r
@@ -1794,9 +1810,12 @@ package ucfg
 //@ modifies *
 //@ rvwrites rvRootOf(to), pointeeStore()
 
+// selfValid(v): the Validate() method of the value behind v (if it has one) accepts it
+//@ ghost func selfValid(v reflect.Value) bool
 //@ func tryValidate :: val -> result
 //@ trusted
 //@ modifies *
+//@ ensures (result == nil) == selfValid(val)
 //@ rvwrites rvRootOf(val), pointeeStore()
 
 //@ func reifyStruct$1
